@@ -31,7 +31,7 @@ REQUIRED = [
     'EdbVerif.C20.topo_perm', 'EdbVerif.C20.topo_hard', 'EdbVerif.C20.topo_cycle',
     'EdbVerif.C20.topo_soft', 'EdbVerif.C20.topo_unres',
     'EdbVerif.C20.topo_cycle_item',
-    'EdbVerif.C20.oset_nodup', 'EdbVerif.C20.oset_mem', 'EdbVerif.C20.oset_order', 'EdbVerif.C20.oset_ofList',
+    'EdbVerif.C20.oset_nodup', 'EdbVerif.C20.oset_refines', 'EdbVerif.C20.oset_mem', 'EdbVerif.C20.oset_order', 'EdbVerif.C20.oset_ofList',
 ]
 
 
